@@ -37,3 +37,64 @@ Qed.
 
 Corollary NumFloat_feqb_cong : forall a b : F NumFloat, feqb a b = true -> forall c, feqb a c = feqb b c.
 Proof. exact float_eqb_cong. Qed.
+
+(** ---------- order laws that hold for ALL doubles: the comparisons are transitive ---------- *)
+Ltac cmp_all :=
+  repeat match goal with
+  | |- context [Z.compare ?a ?b] => destruct (Z.compare_spec a b)
+  | H : context [Z.compare ?a ?b] |- _ => destruct (Z.compare_spec a b)
+  | |- context [Pos.compare_cont Eq ?a ?b] => change (Pos.compare_cont Eq a b) with (Pos.compare a b); destruct (Pos.compare_spec a b)
+  | H : context [Pos.compare_cont Eq ?a ?b] |- _ => change (Pos.compare_cont Eq a b) with (Pos.compare a b) in H; destruct (Pos.compare_spec a b)
+  end.
+
+Ltac sf_cases a b c :=
+  destruct a as [?sa|?sa| |?sa ?ma ?ea], b as [?sb|?sb| |?sb ?mb ?eb], c as [?sc|?sc| |?sc ?mc ?ec]; simpl;
+    try discriminate; try reflexivity;
+    repeat match goal with s : bool |- _ => destruct s; try discriminate; try reflexivity end;
+    intros H1 H2; cmp_all; simpl in *; try discriminate; try reflexivity; subst; try lia.
+
+Lemma SFleb_trans a b c : SFleb a b = true -> SFleb b c = true -> SFleb a c = true.
+Proof. unfold SFleb. sf_cases a b c. Qed.
+Lemma SFltb_leb_trans a b c : SFltb a b = true -> SFleb b c = true -> SFltb a c = true.
+Proof. unfold SFltb, SFleb. sf_cases a b c. Qed.
+Lemma SFleb_ltb_trans a b c : SFleb a b = true -> SFltb b c = true -> SFltb a c = true.
+Proof. unfold SFltb, SFleb. sf_cases a b c. Qed.
+Lemma SFltb_leb a b : SFltb a b = true -> SFleb a b = true.
+Proof. unfold SFltb, SFleb. destruct (SFcompare a b) as [[| |]|]; intros; try discriminate; reflexivity. Qed.
+
+Theorem float_leb_trans (a b c : float) : PrimFloat.leb a b = true -> PrimFloat.leb b c = true -> PrimFloat.leb a c = true.
+Proof. rewrite !leb_spec. apply SFleb_trans. Qed.
+Theorem float_ltb_leb_trans (a b c : float) : PrimFloat.ltb a b = true -> PrimFloat.leb b c = true -> PrimFloat.ltb a c = true.
+Proof. rewrite !ltb_spec, !leb_spec. apply SFltb_leb_trans. Qed.
+Theorem float_leb_ltb_trans (a b c : float) : PrimFloat.leb a b = true -> PrimFloat.ltb b c = true -> PrimFloat.ltb a c = true.
+Proof. rewrite !ltb_spec, !leb_spec. apply SFleb_ltb_trans. Qed.
+Theorem float_ltb_leb (a b : float) : PrimFloat.ltb a b = true -> PrimFloat.leb a b = true.
+Proof. rewrite ltb_spec, leb_spec. apply SFltb_leb. Qed.
+
+(** ... and the remaining order laws hold whenever no NaN is involved *)
+Definition not_nan (x : float) : Prop := Prim2SF x <> S754_nan.
+
+Lemma SF_ltb_negb_leb a b : a <> S754_nan -> b <> S754_nan -> SFltb a b = negb (SFleb b a).
+Proof.
+  intros Ha Hb. unfold SFltb, SFleb.
+  destruct a as [sa|sa| |sa ma ea], b as [sb|sb| |sb mb eb]; try congruence; simpl;
+    repeat match goal with s : bool |- _ => destruct s end; try reflexivity;
+    cmp_all; simpl; try reflexivity; subst; try lia.
+Qed.
+
+Theorem float_ltb_negb_leb (a b : float) : not_nan a -> not_nan b -> PrimFloat.ltb a b = negb (PrimFloat.leb b a).
+Proof. intros Ha Hb. rewrite ltb_spec, leb_spec. apply SF_ltb_negb_leb; assumption. Qed.
+
+Lemma SF_leb_total a b : a <> S754_nan -> b <> S754_nan -> SFleb a b = true \/ SFleb b a = true.
+Proof.
+  intros Ha Hb. unfold SFleb.
+  destruct a as [sa|sa| |sa ma ea], b as [sb|sb| |sb mb eb]; try congruence; simpl;
+    repeat match goal with s : bool |- _ => destruct s end; auto;
+    cmp_all; simpl; auto; subst; try lia.
+Qed.
+
+Theorem float_leb_total (a b : float) : not_nan a -> not_nan b -> PrimFloat.leb a b = true \/ PrimFloat.leb b a = true.
+Proof. intros Ha Hb. rewrite !leb_spec. apply SF_leb_total; assumption. Qed.
+
+Theorem float_leb_refl (a : float) : not_nan a -> PrimFloat.leb a a = true.
+Proof. intros Ha. destruct (float_leb_total a a Ha Ha); assumption. Qed.
